@@ -1,11 +1,11 @@
 #!/usr/bin/env python3
 """Mutation experiments for C19 / C20 (never touches /repo: works in a scratch git worktree).
 
-usage: python3 tools/props/c19_c20_mutations.py <C19|C20> <mutation|fix|all> [--keep]
+usage: python3 tools/props/c19_c20_mutations.py <C19|C20> <mutation|revert-32d9f676|all> [--keep]
 
 Each mutation is a textual replacement in a scratch worktree of /repo (at /repo's HEAD); the check is
-run with VERIF_REPO pointing at it and must report a VIOLATION (exit 1). `fix` applies
-notes/fixes/<pid>-*.diff instead and the check must pass without KNOWN-FINDING lines.
+run with VERIF_REPO pointing at it and must report a VIOLATION (exit 1). `revert-32d9f676` (C19) reverse-applies
+notes/fixes/C19-terminal-eq-ord.diff, i.e. restores the Eq/Ord defects that /repo commit 32d9f676 repaired.
 """
 import glob
 import os
@@ -148,15 +148,15 @@ def run_check(pid):
 def main():
     pid, which = sys.argv[1], sys.argv[2]
     keep = "--keep" in sys.argv
-    names = list(MUT[pid]) if which == "all" else [which]
+    names = (list(MUT[pid]) + (["revert-32d9f676"] if pid == "C19" else [])) if which == "all" else [which]
     results = []
     for name in names:
         sh(["git", "-C", SCRATCH, "checkout", "."]) if os.path.exists(SCRATCH) else scratch()
-        if name == "fix":
+        if name == "revert-32d9f676":
             for d in sorted(glob.glob(os.path.join(VERIF, "notes", "fixes", pid + "-*.diff"))):
-                r = sh(["git", "-C", SCRATCH, "apply", d])
+                r = sh(["git", "-C", SCRATCH, "apply", "-R", d])
                 if r.returncode != 0:
-                    raise SystemExit("fix does not apply: " + r.stdout)
+                    raise SystemExit("the repair does not reverse-apply: " + r.stdout)
         else:
             path, old, new = MUT[pid][name]
             p = os.path.join(SCRATCH, path)
@@ -178,7 +178,7 @@ def main():
         results.append((name, r.returncode, len(viol), len(known)))
     if not keep:
         cleanup()
-    bad = [x for x in results if (x[0] == "fix") != (x[1] == 0 and x[3] == 0)]
+    bad = [x for x in results if x[1] != 1 or x[2] == 0]
     sys.exit(1 if bad else 0)
 
 
